@@ -203,7 +203,81 @@ def m_hm_insert(ex, args, callee):
     return ex.none()
 
 
+class RespBuilder:
+    """http::response::Builder: parts or a latched error (first invalid header / status)"""
+    def __init__(self): self.status, self.hcell, self.failed = 200, Cell(HMap()), False
+    @property
+    def headers(self): return dv(self.hcell.v)
+    def __repr__(self): return f'Builder({self.status},{self.headers},failed={self.failed})'
+
+
+class Response:
+    def __init__(self, status, headers, body): self.status, self.headers, self.body = status, headers, body
+    def __repr__(self): return f'Response({self.status},{self.headers},{self.body!r})'
+
+
+class JsonText:
+    """serde_json::to_string*(value): uninterpreted, but keeps the value it renders"""
+    def __init__(self, value, pretty=False): self.value, self.pretty = value, pretty
+    def __repr__(self): return f'Json({self.value!r})'
+
+
+def m_builder_status(ex, args, callee):
+    b = args[0]
+    sc = dv(args[1])
+    while isinstance(sc, Adt): sc = sc.fields[None][0].v
+    b.status = sc
+    return b
+
+
+def m_builder_header(ex, args, callee):
+    b = args[0]
+    if b.failed: return b
+    n = m_hname_try_from(ex, [args[1]], callee)
+    v = m_hvalue_try_from(ex, [args[2]], callee)
+    if n.discr == 1 or v.discr == 1:
+        b.failed = True; return b
+    b.headers.entries.append((ex.payload(n), ex.payload(v)))
+    return b
+
+
+def m_builder_headers_mut(ex, args, callee):
+    b = dv(args[0])
+    if b.failed: return ex.none()
+    return ex.some(Ref(b.hcell))
+
+
+def m_builder_body(ex, args, callee):
+    b = args[0]
+    if b.failed: return ex.err(Opaque('http::Error'))
+    return ex.ok(Response(b.status, b.headers, args[1]))
+
+
+def m_resp_headers_mut(ex, args, callee):
+    r = dv(args[0])
+    c = Cell(r.headers)
+    return Ref(c)
+
+
+def m_json_to_string(ex, args, callee):
+    return ex.ok(JsonText(dv(args[0]), 'pretty' in callee))
+
+
 MODELS = [
+    (r'<http::Error as From<.*>>::from$', lambda ex, a, c: Opaque('http::Error')),
+    (r'Response::<.*>::builder$|^(http::|hyper::)?(response::)?Response::builder$', lambda ex, a, c: RespBuilder()),
+    (r'response::Builder::status::|Builder::status::', m_builder_status),
+    (r'response::Builder::header::|Builder::header::', m_builder_header),
+    (r'response::Builder::headers_mut$|Builder::headers_mut$', m_builder_headers_mut),
+    (r'response::Builder::body::|Builder::body::', m_builder_body),
+    (r'Response::<.*>::status$', lambda ex, a, c: dv(a[0]).status),
+    (r'Response::<.*>::headers_mut$', m_resp_headers_mut),
+    (r'Response::<.*>::headers$', lambda ex, a, c: Ref(Cell(dv(a[0]).headers))),
+    (r'^serde_json::to_string_pretty::|^serde_json::to_string::|^serde_json::to_vec::', m_json_to_string),
+    # dropshot::Body is a thin wrapper around http_body_util bodies: its constructors are modelled (override), its
+    # contents are whatever value was handed in
+    (r'<(body::)?Body as From<.*>>::from$|^(body::)?Body::with_content::', lambda ex, a, c: Opaque('body', a[0]), True),
+    (r'^(body::)?Body::empty$', lambda ex, a, c: Opaque('body', None), True),
     (r'<HeaderName as TryFrom<.*>>::try_from$|HeaderName::from_static$', m_hname_try_from),
     (r'<HeaderValue as TryFrom<.*>>::try_from$|HeaderValue::from_str$|<HeaderValue as FromStr>::from_str$', m_hvalue_try_from),
     (r'HeaderMap::try_append::|HeaderMap::<.*>::try_append::|HeaderMap::append::|HeaderMap::<.*>::append::', m_hm_try_append),
@@ -221,6 +295,8 @@ MODELS = [
     (r'StatusCode::is_client_error$', rng_check(400, 499)),
     (r'StatusCode::is_server_error$', rng_check(500, 599)),
     (r'StatusCode::is_success$', rng_check(200, 299)),
+    (r'StatusCode::is_informational$', rng_check(100, 199)),
+    (r'StatusCode::is_redirection$', rng_check(300, 399)),
     (r'StatusCode::canonical_reason$', lambda ex, a, c: canonical_reason(ex, a[0])),
     (r'StatusCode::from_u16$', m_sc_from_u16),
 ]
